@@ -282,6 +282,21 @@ def opcode_validity_cases(t1, t2):
     return out
 
 
+def hash_hypothesis_cases(t1, t2):
+    """the other hypothesis of C02_empty_sound(_separating / _deephash) observed as a Coq boolean: on the tag-safe set
+    members of this pair the DeepHash scalar model gives equal item hashes only to ==-equal members"""
+    ms = _set_members(t1, []) + _set_members(t2, [])
+    if not ms:
+        return []
+    try:
+        lst = core.coq_list(V.atom_to_coq(a) for a in ms)
+    except Exception:  # noqa  (a member outside the atom universe, e.g. a tuple)
+        return []
+    expr = ("sx_bool (let l := filter DD.Hash.HashModel.tag_safe_atom %s in "
+            "forallb (fun a => forallb (fun b => implb (pystr_eqb (hatom_deep a) (hatom_deep b)) (py_eq a b)) l) l)" % lst)
+    return [(expr, True, {"what": "item hash separates non-== tag-safe set members", "members": repr(ms)[:300]})]
+
+
 def _get_t2(t1, t2, cp):
     """the object of t2 at the canonical path cp (dict keys are looked up by ==)"""
     cur = t2
@@ -728,8 +743,23 @@ def n_tag_text(v, in_set):
     """a non-string scalar inside a set member is hashed as the str spelling its type-tagged serialisation
     (finding K1: None ~ 'NONE', 1 ~ 'int:1', True ~ 'bool:true', 1.5 ~ 'float:1.5')"""
     if in_set and (v is None or isinstance(v, (bool, int, float))) and not isinstance(v, (datetime.date, datetime.time, datetime.timedelta)):
-        return tag_text(v)
+        return _canon_tag(tag_text(v))
+    if in_set and isinstance(v, str):
+        return _canon_tag(v)
     return v
+
+
+def _canon_tag(s):
+    """the run-wide ==-keyed table serves ONE hash for == numbers of different type (1 / 1.0: whichever was hashed first),
+    so 'float:1.0' and 'int:1' are one tag as far as explaining an empty diff goes"""
+    if s.startswith("float:"):
+        try:
+            x = float(s[6:])
+            if x.is_integer():
+                return "int:%d" % int(x)
+        except (ValueError, OverflowError):
+            pass
+    return s
 
 
 NORMALISERS = {"K1": n_tag_text, "C02-TIME-TZ-IN-SET": n_time_tz_in_set, "C02-NAIVE-AWARE": n_naive_is_utc,
@@ -816,6 +846,11 @@ def replay_witnesses(ctx):
     if r1 != {} or sorted(r2.keys()) != ["set_item_added", "set_item_removed"] or r3 != {}:
         ctx.break_("correspondence", {"name": "DeepHash table witnesses", "detail": "the implementation no longer behaves like C02_visiting_order_observable / "
                                       "C02_table_transparent_refuted; Diff/DiffMemo.v is out of date", "impl": [repr(r1), repr(r2), repr(r3)]})
+    # C02_copy_empty_refuted_threshold: outside the documented range 0..1 the copy clause fails (not a finding: outside the domain)
+    d2 = {"a": 1, "b": 2}
+    if DeepDiff(d2, dict(d2), threshold_to_diff_deeper=1.5) == {} or DeepDiff(d2, dict(d2), threshold_to_diff_deeper=1) != {}:
+        ctx.break_("correspondence", {"name": "threshold witness", "detail": "DeepDiff no longer behaves like C02_copy_empty_refuted_threshold "
+                                      "(threshold_to_diff_deeper=1.5 on {'a':1,'b':2} vs itself); Diff/DiffStrip.v thr_d is out of date"})
     # fixed:82f0543 (microseconds of time set members): must stay fixed
     for a, b in (({datetime.time(1, 2, 3, 5)}, {datetime.time(1, 2, 3, 6)}), ({(datetime.time(1, 2, 3, 5), 1)}, {(datetime.time(1, 2, 3, 6), 1)})):
         run_cfg(ctx, a, b, dict(view="text", verbose_level=1), False, False, "verdict_exotic")
@@ -827,8 +862,8 @@ def replay_witnesses(ctx):
 
 
 def run(ctx):
-    n_values = 1500 if ctx.thorough else 130
-    pairs = gen_model_pairs(ctx, n_values) + small_pairs(ctx, 450) + gen_alias_pairs(ctx, 3000 if ctx.thorough else 250) + gen_shared_pairs(ctx, 3000 if ctx.thorough else 260)
+    n_values = 1100 if ctx.thorough else 130
+    pairs = gen_model_pairs(ctx, n_values) + small_pairs(ctx, 450) + gen_alias_pairs(ctx, 3000 if ctx.thorough else 250) + gen_shared_pairs(ctx, 1500 if ctx.thorough else 260)
     cases, vcases, mcases = [], [], []
     pairs = [(stable_order(t1), stable_order(t2), kind, is_copy) for (t1, t2, kind, is_copy) in pairs]
     for i, (t1, t2, kind, is_copy) in enumerate(pairs):
@@ -837,6 +872,18 @@ def run(ctx):
         corr_pair(ctx, t1, t2, cases, every=(i % 25 == 0), mcases=mcases)
         if i % 3 == 0 or kind == "atom_list_edit":
             vcases += opcode_validity_cases(t1, t2)
+        if i % 3 == 1:
+            vcases += hash_hypothesis_cases(t1, t2)
+        if i % 7 == 2:
+            # the representation invariant (guard wf) and the key guard observed: real dicts / sets satisfy wf under the model's py_eq,
+            # and inputs_ok (keep_key c) holds exactly when no looked-at-by-default '__' key occurs
+            for t in (t1, t2):
+                try:
+                    vcases.append(("sx_bool (wf %s)" % V.to_coq(t), True, {"what": "wf of a real value", "t": repr(t)[:300]}))
+                    vcases.append(("sx_bool (inputs_ok (keep_key (mkCfg false 33 100 true)) any_atom %s)" % V.to_coq(t), not has_private(t),
+                                   {"what": "key guard = no '__' key", "t": repr(t)[:300]}))
+                except Exception:  # noqa  (a value outside the atom universe)
+                    pass
     for (t1, t2, kind, is_copy) in gen_exotic(ctx, 1500 if ctx.thorough else 150):
         ctx.count("gen:" + kind.split("@")[0])
         if "@" in kind:
@@ -845,7 +892,7 @@ def run(ctx):
     # numeric arrays INSIDE a model (Diff/NpModel.v np_run_diff): the same pairs go to the direct oracle and to the
     # correspondence (complete tree view incl. index tuples and numpy-scalar leaves, text view, array_equal, tolist)
     from harness import npcommon as NP
-    np_pairs = NP.gen_pairs(ctx.rng, 100 if ctx.thorough else 12)
+    np_pairs = NP.gen_pairs(ctx.rng, 60 if ctx.thorough else 12)
     for (a, b, kind, is_copy) in np_pairs:
         ctx.count("gen:numpy_model:" + kind.split(":")[0])
         oracle_pair(ctx, a, b, is_copy, full_grid=False, stats_key="verdict_numpy_model", model_ok=False)
@@ -854,7 +901,7 @@ def run(ctx):
     # Diff/XuValue.v): the same pairs go to the direct oracle and to the correspondence (tree view incl. the normalised
     # datetimes DeepDiff reports, text view, Python == vs py_eq, DeepHash's pre-hash texts)
     from harness import xucommon as XU
-    xu_pairs = XU.gen_pairs(ctx.rng, 60 if ctx.thorough else 6)
+    xu_pairs = XU.gen_pairs(ctx.rng, 40 if ctx.thorough else 6)
     for (a, b, kind, is_copy) in xu_pairs:
         ctx.count("gen:xu_model:" + ":".join(kind.split("@")[0].split(":")[:2]))
         oracle_pair(ctx, a, b, is_copy, full_grid=False, stats_key="verdict_xu_model", model_ok=False)
@@ -865,7 +912,7 @@ def run(ctx):
         ctx.sample(c[2])
     ctx.coq_cases("c02", D.MODEL_HDR, cases, shard=150, label="tree_and_text")
     ctx.coq_cases("c02m", D.MODEL_HDR_M, mcases, shard=150, label="memo_model_tree_and_text")
-    ctx.coq_cases("c02v", D.MODEL_HDR + "\nFrom DD Require Import Diff.DiffEmpty.", vcases, shard=300, label="difflib_opcodes_valid")
+    ctx.coq_cases("c02v", D.MODEL_HDR + "\nFrom DD Require Import Diff.DiffEmpty.", vcases, shard=300, label="hypotheses_observed(valid_opcodes,hash_separates)")
 
     # extension: class instances (attributes) inside the same models - beyond the property's stated domain,
     # recorded in the evidence file, never a violation (core.Ctx.extension; coq/theories/Obj)
